@@ -291,6 +291,10 @@ pub struct OpMix {
     pub w_ratio: f64,
     pub w_chunk: f64,
     pub w_reset: f64,
+    /// the caller changes its mask argument mid-stream
+    pub w_mask: f64,
+    /// malformed calls (rejected, must change nothing)
+    pub w_bad: f64,
     /// probability that a processing call goes through a non-core path
     pub p_alt_path: f64,
     pub p_slack: f64,
@@ -307,6 +311,8 @@ impl OpMix {
             w_ratio: if rng.chance(0.25) { 0.0 } else { rng.uniform(0.05, 0.6) },
             w_chunk: if rng.chance(0.4) { 0.0 } else { rng.uniform(0.02, 0.4) },
             w_reset: if rng.chance(0.5) { 0.0 } else { rng.uniform(0.0, 0.08) },
+            w_mask: 0.0,
+            w_bad: 0.0,
             p_alt_path: if rng.chance(0.5) { 0.0 } else { rng.uniform(0.0, 0.5) },
             p_slack: if rng.chance(0.5) { 0.0 } else { rng.uniform(0.0, 0.6) },
             p_ramp: rng.unit(),
@@ -340,6 +346,33 @@ pub fn gen_process(rng: &mut Rng, mix: &OpMix, partial: bool) -> Op {
     Op::Process { path, valid, slack_in, slack_out, slices: rng.chance(0.2) }
 }
 
+pub fn gen_set_mask(rng: &mut Rng, cfg: &Config) -> Op {
+    if rng.chance(0.25) {
+        return Op::SetMask { mask: None };
+    }
+    let mut m: Vec<bool> = (0..cfg.channels).map(|_| rng.chance(0.6)).collect();
+    if rng.chance(0.1) {
+        m.iter_mut().for_each(|x| *x = false);
+    }
+    Op::SetMask { mask: Some(m) }
+}
+
+/// Sprinkle mask changes / malformed calls into an op list (used by the workloads whose oracle allows them).
+pub fn sprinkle(rng: &mut Rng, cfg: &Config, ops: &mut Vec<Op>, p_mask: f64, p_bad: f64) {
+    let mut i = 0;
+    while i < ops.len() {
+        if rng.chance(p_mask) {
+            ops.insert(i, gen_set_mask(rng, cfg));
+            i += 1;
+        }
+        if rng.chance(p_bad) {
+            ops.insert(i, crate::oracle2::gen_bad_op(rng, cfg));
+            i += 1;
+        }
+        i += 1;
+    }
+}
+
 /// Uniform profile: ops i.i.d. from the alphabet with per-run weights.
 pub fn gen_ops_uniform(rng: &mut Rng, cfg: &Config, mix: &OpMix) -> Vec<Op> {
     let mut ops = Vec::with_capacity(mix.n_ops);
@@ -351,6 +384,8 @@ pub fn gen_ops_uniform(rng: &mut Rng, cfg: &Config, mix: &OpMix) -> Vec<Op> {
         if can_ratio { mix.w_ratio } else { 0.0 },
         if can_chunk { mix.w_chunk } else { 0.0 },
         mix.w_reset,
+        mix.w_mask,
+        mix.w_bad,
     ];
     for _ in 0..mix.n_ops {
         match rng.weighted(&w) {
@@ -358,7 +393,9 @@ pub fn gen_ops_uniform(rng: &mut Rng, cfg: &Config, mix: &OpMix) -> Vec<Op> {
             1 => ops.push(gen_process(rng, mix, true)),
             2 => ops.push(Op::SetRatio { rel: gen_rel(rng, cfg, mix.ratio_edges), ramp: rng.chance(mix.p_ramp), relative_api: rng.chance(0.5) }),
             3 => ops.push(Op::SetChunk { n: gen_chunk(rng, cfg.chunk) }),
-            _ => ops.push(Op::Reset),
+            4 => ops.push(Op::Reset),
+            5 => ops.push(gen_set_mask(rng, cfg)),
+            _ => ops.push(crate::oracle2::gen_bad_op(rng, cfg)),
         }
     }
     ops
@@ -523,7 +560,15 @@ pub fn gen_ops_ratematch(rng: &mut Rng, cfg: &Config, mix: &OpMix) -> (Vec<Op>, 
     (ops, t)
 }
 
+pub fn gen_tiny(rng: &mut Rng) -> Signal {
+    // f32 subnormals are below 1.2e-38, f64 subnormals below 2.2e-308
+    Signal::Tiny { seed: rng.next(), scale: *rng.pick(&[1e-39, 1e-41, 1e-43, 1e-309, 1e-315, 1e-36]) }
+}
+
 pub fn gen_signal(rng: &mut Rng) -> Signal {
+    if rng.chance(0.04) {
+        return gen_tiny(rng);
+    }
     match rng.weighted(&[0.6, 0.2, 0.15, 0.05]) {
         0 => Signal::Noise { seed: rng.next() },
         1 => Signal::Impulses { seed: rng.next(), period: rng.usize_in(3, 400) as u32, floor: if rng.chance(0.5) { 0.0 } else { 0.01 } },
